@@ -102,6 +102,20 @@ Theorem C10_encoding_loop_outside_finding_partial :
 Proof. exact enc_loop_outside_finding. Qed.
 Print Assumptions C10_encoding_loop_outside_finding_partial.
 
+(* the minimal repair - at end of stream keep calling until InputEmpty - is
+   correct under the contract alone *)
+Theorem C10_encoding_loop_repaired_partial :
+  forall (dstate : Type) dec maxlen sem mu fuel_of,
+    (forall s i, (mu s i < fuel_of s i)%nat) ->
+    contract dstate dec sem mu ->
+    forall chunks s,
+    exists evs, enc_run_repaired dstate dec maxlen fuel_of s chunks = Done evs /\
+                text evs = text (sem s (concat chunks)) /\
+                n_err evs = n_err (sem s (concat chunks)) /\
+                n_repl evs = n_repl (sem s (concat chunks)).
+Proof. exact enc_loop_repaired_correct. Qed.
+Print Assumptions C10_encoding_loop_repaired_partial.
+
 (* mid-stream chunks are handled correctly under the contract alone *)
 Theorem C10_encoding_loop_stream_chunk_partial :
   forall (dstate : Type) dec maxlen sem mu,
